@@ -256,6 +256,8 @@ def _colour_function_ok(item):
     """hand-written reading of the documented function forms:
     [fg_|bg_|ul_|dul_] rgb( [ '[' | '(' ] c , c , c [ ')' | ']' ] )   |  … rgb( … c … )  |  … colo[u]r256( … c … )
     c = blanks, then 0x<hex digits> or <decimal digits>, then blanks"""
+    if item.endswith('\n'):
+        item = item[:-1]        # the code anchors with `$`, which also matches before one final newline
     rest = None
     for pfx in ('dul_', 'ul_', 'bg_', 'fg_', ''):
         if item.startswith(pfx):
